@@ -107,3 +107,24 @@ Proof.
     + inversion H; subst. apply negb_false_iff, N.eqb_eq in Ev. repeat split; auto. left; reflexivity.
     + destruct (IH n s H) as [A B]. split; [right; assumption | assumption].
 Qed.
+
+(** ** Reads that fail *)
+
+(** a reconcile that could not read its lists never turns a setting valid: a setting is valid afterwards only if it
+    was valid before (and the verdict could not be renewed) or the lists were read and the rule makes it valid *)
+Lemma valid_only_by_the_rule : forall inst all nodes fs fn,
+  fst (setting_sync inst all nodes fs fn) = SET_VALID ->
+  (fs = true /\ s_status inst = SET_VALID) \/
+  (fs = false /\ fn = false /\ setting_valid inst (settings_of_ns (s_ns inst) all) nodes = true).
+Proof.
+  intros inst all nodes fs fn H. unfold setting_sync in H.
+  destruct (has_reference inst); cbn [negb] in H; [|discriminate].
+  destruct fs; [left; split; [reflexivity | exact H]|].
+  destruct fn; [discriminate|].
+  destruct (setting_valid inst (settings_of_ns (s_ns inst) all) nodes); [right; auto | discriminate].
+Qed.
+
+(** ... and a setting without a reference is put in error whatever could be read *)
+Lemma noref_error_always : forall inst all nodes fs fn,
+  has_reference inst = false -> setting_sync inst all nodes fs fn = (SET_ERROR, true).
+Proof. intros inst all nodes fs fn H. unfold setting_sync. rewrite H. reflexivity. Qed.
